@@ -49,8 +49,9 @@ KINDS_G = KINDS + ["collect", "apply"]
 def _mk_event(i):
     if i % 7 == 0 and i < 9000:
         # metadata events travel through the stages (and wait at barriers) like any other event
-        return {"ph": "M", "ts": 1.0, "pid": 0, "tid": 0, "name": "process_name", "args": {"id": i, "name": "p"}}
-    return {"ph": "X", "ts": 1.0, "dur": 1.0, "pid": 0, "tid": 0, "name": "n", "args": {"id": i}}
+        return {"ph": "M", "ts": 0.0, "pid": 0, "tid": 0, "name": "process_name", "args": {"id": i, "name": "p"}}
+    # the order of the timestamps differs from the order of arrival: the engine hands events on as they come
+    return {"ph": "X", "ts": float((i * 7) % 5 + 1), "dur": 1.0, "pid": 0, "tid": 0, "name": "n", "args": {"id": i}}
 
 
 def _with_id(ev, i):
